@@ -196,8 +196,11 @@ def st_hierarchy(draw, ids, n_classes=(1, 3), kinds=tuple(MEMBER_KINDS), dag=Fal
     n = draw(st.integers(*n_classes))
     kind = draw(st.sampled_from(list(kinds)))
     is_async = async_ok and kind in ("method", "static", "class") and draw(st.integers(0, 1)) == 0
-    mname = draw(st.sampled_from(["m", "do", "__getitem__"])) if kind == "method" else "p" if kind in (
-        "getter", "setter", "deleter") else "m"
+    # "_m"/"_p": protected members - their pre/postconditions and snapshots are inherited like any other member's, only
+    # the invariants are not checked around them
+    mname = draw(st.sampled_from(["m", "m", "do", "__getitem__", "_m"])) if kind == "method" else draw(
+        st.sampled_from(["p", "p", "p", "_p"])) if kind in ("getter", "setter", "deleter") else draw(
+        st.sampled_from(["m", "m", "m", "_m"]))
     classes = []
     for ci in range(n):
         if ci == 0:
